@@ -1,14 +1,14 @@
 import SophiaProofs.Props.C06
 open SophiaProofs.C06
+#print axioms impl_eq_spec_partial
+#print axioms flag_smaller_path_is_spec_rule
+#print axioms flag_predicate_must_be_iri
+#print axioms skip_rule_as_specified
 #print axioms unsupported_iff
+#print axioms unsupported_iff_now
 #print axioms normalize_unsupported_iff
 #print axioms limits_only_fail
 #print axioms normalize_limits_only_fail
-#print axioms C06_witness
-#print axioms C06_witness_attributed
-#print axioms not_implEqSpec
 #print axioms escapes_as_specified
-#print axioms impl_eq_spec_partial
-#print axioms skip_rule_as_specified
 #print axioms C06_witness_agrees
 #print axioms C06_family_agrees
